@@ -424,7 +424,7 @@ def enum_value_sv(ci: ClassInfo, name) -> SV:
 
 # ------------------------------------------------------------------------------------------------ interpreter
 PURE_BUILTINS = {"len", "isinstance", "int", "str", "bool", "float", "min", "max", "abs", "old", "implies", "iff",
-                 "forall", "exists", "forall_obj", "exists_obj", "type", "hasattr", "getattr", "IPv4Address", "ite", "bit", "fresh", "seq", "epoch", "unchanged", "n_events"}
+                 "forall", "exists", "forall_obj", "exists_obj", "type", "hasattr", "getattr", "IPv4Address", "ite", "bit", "fresh", "seq", "epoch", "unchanged", "n_events", "plen", "in_net", "valid_mask"}
 
 
 class Interp:
@@ -543,6 +543,10 @@ class Interp:
             return smt.ival(v.t), False
         if k == "opt":
             return self.num(SV(v.t, v.ty.a[0]))
+        if k == "any":
+            t = v.t
+            self.st.oblige("safety", "arith_on_nonnumber", z3.Or(smt.is_int(t), smt.is_real(t), smt.is_bool(t)))
+            return z3.If(smt.is_int(t), z3.ToReal(smt.ival(t)), z3.If(smt.is_bool(t), z3.If(smt.bval(t), z3.RealVal(1), z3.RealVal(0)), smt.rval(t))), True
         raise Refuse(f"arithmetic on value of type {v.ty}")
 
     def eq(self, a, b):
@@ -711,8 +715,28 @@ class Interp:
         return self.ev_name(node, fr)
 
     def ev_JoinedStr(self, node, fr):
-        # f-string: opaque fresh string; embedded expressions are not evaluated (DESIGN 1.2)
-        return self.st.fresh_val("fstr", T.STR)
+        # f-string: opaque fresh string.  When every embedded expression is a pure read, the parts are kept
+        # python-side so that library models (IPv4Network(f"{a}/{m}")) can see them; they never influence the string.
+        v = self.st.fresh_val("fstr", T.STR)
+        try:
+            parts = []
+            for p in node.values:
+                if isinstance(p, ast.Constant):
+                    parts.append(p.value)
+                elif isinstance(p, ast.FormattedValue) and self.is_pure(p.value, fr) and len(node.values) <= 3:
+                    self.st.spec_depth += 1
+                    try:
+                        parts.append(self.ev(p.value, fr))
+                    finally:
+                        self.st.spec_depth -= 1
+                else:
+                    parts = None
+                    break
+            if parts is not None and len(node.values) <= 3:
+                v.c = ("fstr", parts)
+        except (Refuse, PathEnd):
+            pass
+        return v
 
     def ev_Tuple(self, node, fr):
         return PTuple([self.ev(e, fr) for e in node.elts])
@@ -1099,7 +1123,11 @@ class Interp:
             el = z3.Select(z3.Select(st.arr("lel"), smt.rid(cont.t)), j)
             return z3.Exists([j], z3.And(j >= 0, j < n, el == item.t))
         if k == "str":
-            return smt.mk_bool(st.fresh("str_in", smt.B)) and st.fresh("str_in", smt.B)
+            return st.fresh("str_in", smt.B)
+        if k == "ext" and T.strip_opt(cont.ty).a[0] == "IPv4Network":
+            from .lib import in_net_term
+            r = smt.rid(cont.t)
+            return in_net_term(st, smt.ipval(item.t), smt.ipval(st.getf(r, "net:address")), smt.ipval(st.getf(r, "net:netmask")))
         raise Refuse(f"`in` on value of type {cont.ty}")
 
     def ev_NamedExpr(self, node, fr):
@@ -1184,6 +1212,10 @@ class Interp:
             st.oblige("safety", f"none_deref.{attr}", z3.Not(smt.is_none(base.t)), line)
             ty = ty.a[0]
         if ty.k == "none":
+            if st.spec_depth or st.guards:
+                # unreachable under its guard (e.g. `x is None or x.f`): any value will do
+                st.oblige("safety", f"none_deref.{attr}", z3.BoolVal(False), line)
+                return SV(st.fresh("junk", Val), T.ANY)
             st.oblige("safety", f"none_deref.{attr}", z3.BoolVal(False), line)
             raise PathEnd()
         if ty.k == "enum":
@@ -1262,14 +1294,18 @@ class Interp:
     def ext_attr(self, base: SV, extname: str, attr: str):
         st = self.st
         if extname == "IPv4Network":
-            if attr in ("network_address", "broadcast_address", "netmask"):
-                v = SV(st.getf(smt.rid(base.t), "net:" + attr), T.IP)
-                st.assume_wt(v)
-                return v
+            r = smt.rid(base.t)
+            a = smt.ipval(st.getf(r, "net:address"))
+            m = smt.ipval(st.getf(r, "net:netmask"))
+            if attr == "netmask":
+                return SV(st.getf(r, "net:netmask"), T.IP)
+            if attr == "network_address":
+                return SV(smt.mk_ip(smt.and_int(a, m)), T.IP)
+            if attr == "broadcast_address":
+                return SV(smt.mk_ip(smt.or_int(a, smt.andnot_int(z3.IntVal(2**32 - 1), m))), T.IP)
             if attr == "prefixlen":
-                v = SV(st.getf(smt.rid(base.t), "net:prefixlen"), T.INT)
-                st.assume_wt(v)
-                st.assume(z3.And(smt.ival(v.t) >= 0, smt.ival(v.t) <= 32))
+                v = SV(st.getf(r, "net:prefixlen"), T.INT)
+                st.assume(z3.And(smt.is_int(v.t), smt.ival(v.t) >= 0, smt.ival(v.t) <= 32))
                 return v
         return PContainerMethod(base, attr)
 
